@@ -376,6 +376,11 @@ func c06Round2(c *Ctx, ix *Index) {
 			`^!\*storage/mkvs/db/api\.PolicyForRoot\(param:oldRoot\)\.NoChildRoots$`,
 		}, Ev{Name: "batch created", Fn: fn, Ins: succ}, "Prune deletes all nodes of a no-child-roots type with their version, so nothing may be derived from such a root")
 	}
+	c06SeqNoRules(c, ix)
+}
+
+// c06SeqNoRules: the reservation maps of pathbadger sequence numbers (shared with C07 and C13).
+func c06SeqNoRules(c *Ctx, ix *Index) {
 	// (2) finalizing version v releases only v's sequence-number reservations; candidates already committed for later
 	// versions keep theirs (a released reservation would be handed out again and the new candidate would overwrite them)
 	for _, field := range []string{"NextPendingRootSeq", "PendingRootSeqs"} {
